@@ -19,4 +19,7 @@ def obligations():
         L.append(_g.glue_ob(Ob, 'H3.glue_dtx_shape', fsi, dur, 'quick'))
     for fsi, dur in [(f, d) for f in range(5) for d in range(9) if (f, d) not in [(4, 3), (2, 4), (0, 8)]][::4]:
         L.append(_g.glue_ob(Ob, 'H3.glue_dtx_shape', fsi, dur, 'thorough'))
+    # H4: the DTX decision at its call site in the per-frame glue (C05-H2 harness): counter advanced by the frame duration in Q1 ms, DTX packet = TOC alone
+    for mode, fsi, dur, ch, ld, maxb, tier in ((1002, 4, 0, 2, 1, 40, 'quick'), (1000, 0, 2, 1, 0, 40, 'thorough'), (1002, 2, 1, 1, 0, 80, 'thorough'), (1001, 3, 3, 2, 0, 24, 'thorough')):
+        L.append(_g.frame_ob(Ob, 'H4.frame_glue_dtx', mode, fsi, dur, ch, ld, tier, maxb=maxb, budget=(900 if tier == 'quick' else 1500)))
     return L
